@@ -50,6 +50,10 @@ pub struct ShutCase {
     pub sched: u8,
     pub sched_seed: u64,
     pub iterations: u32,
+    /// capacity of the `lru` function, set before phase 1 (programs with lru nodes only): values
+    /// beyond it are evicted at the write between the phases
+    #[serde(default)]
+    pub lru_cap: Option<u8>,
 }
 
 #[derive(Clone, Copy, Debug, PartialEq, Eq)]
@@ -158,7 +162,14 @@ pub fn gen_shut_case(tape: &[u32], which: Which, iterations: u32) -> ShutCase {
     let sched = t.weighted(&[3, 1, 2, 2, 1]) as u8; // random, pct1, pct2, pct3, pct5
     let sched = if sched == 4 { 5 } else { sched };
     let which = if which == Which::Proto { if t.chance(2, 3) { Which::Cycles } else { Which::Readers } } else { which };
-    let pf = profile(which);
+    let mut pf = profile(which);
+    // C16 with eviction: lru functions with a tiny capacity, evicted at the write between phases
+    // (C17's at-most-once clause excludes eviction and is not evaluated for these programs)
+    let mut lru_cap = None;
+    if which == Which::Readers && t.chance(1, 3) {
+        pf.kinds[5] = 4;
+        lru_cap = Some(1 + t.pick(2) as u8);
+    }
     let prog = gen_program(&mut t, &pf);
     let nt = 2 + t.pick(3);
     let mut phase1: Vec<Vec<TOp>> = (0..nt).map(|_| gen_plan(&mut t, &prog, which, 4)).collect();
@@ -193,7 +204,8 @@ pub fn gen_shut_case(tape: &[u32], which: Which, iterations: u32) -> ShutCase {
     } else {
         (None, vec![])
     };
-    ShutCase { prog, phase1, write, phase2, sched, sched_seed, iterations }
+    let lru_cap = if prog.nodes.iter().any(|n| n.kind == Kind::Lru) { lru_cap } else { None };
+    ShutCase { prog, phase1, write, phase2, sched, sched_seed, iterations, lru_cap }
 }
 
 #[salsa::input]
@@ -392,8 +404,9 @@ fn check_phase(pc: &PhaseCheck, results: &[Vec<TRes>], log: &[Rec], sh: &Shared,
         }
     }
     // --- C17: at most one execution per key per revision (a phase is one revision) ---
+    let has_lru = prog.nodes.iter().any(|n| n.kind == Kind::Lru);
     if pc.which == Which::Readers {
-        for (dk, tids) in &execs {
+        for (dk, tids) in execs.iter().filter(|_| !has_lru) {
             if tids.len() > 1 {
                 out.push(viol("executed-twice-in-one-revision", format!("phase {}: key {dk:?} executed {} times (threads {tids:?})", pc.phase, tids.len())));
             }
@@ -506,6 +519,9 @@ pub fn run_shut_case(which: Which, case: &ShutCase) -> SeqOutcome {
         let prog_lattice = case.prog.lattice;
         let mut model = Model::new(&case.prog);
         let mut world = World::new(prog, &model.vals, model.cells.clone());
+        if let Some(c) = case.lru_cap {
+            let _ = world.lru_cap(c as usize);
+        }
         world.take_log();
         let mut ids = IdBook::default();
         let mut v = vec![];
@@ -645,6 +661,12 @@ pub fn run_shut_case(which: Which, case: &ShutCase) -> SeqOutcome {
     }
     if case.write.is_some() {
         outc.labels.push("two-phases");
+    }
+    if case.lru_cap.is_some() {
+        outc.labels.push(if case.write.is_some() { "lru-evicting-write-between-phases" } else { "lru-program" });
+    }
+    if case.phase1.iter().flatten().any(|o| matches!(o, TOp::Tag { .. })) {
+        outc.labels.push("second-function-on-shared-input");
     }
     outc.labels.push(if case.sched == 0 { "sched-random" } else { "sched-pct" });
     outc.counters.push(("schedules", done));
